@@ -6,7 +6,7 @@ import os
 from checks import lib
 
 PROPERTY = "C17"
-LEAN_MODULES = ["KafVerif.Props.C17"]
+LEAN_MODULES = ["KafVerif.Props.C17", "KafVerif.Props.C17Limits"]
 OBLIGATIONS = [
     "KafVerif.C17.stores_bisimilar",
     "KafVerif.C17.same_results",
@@ -15,6 +15,13 @@ OBLIGATIONS = [
     "KafVerif.C17.empty_group_commit_unlisted",
     "KafVerif.C17.delete_keeps_commits_old",
     "KafVerif.C17.grow_error_order_old",
+    # etcd's resource limits as parameters (Props/C17Limits.lean)
+    "KafVerif.C17.limited_step_eq",
+    "KafVerif.C17.same_results_limited",
+    "KafVerif.C17.onetxn_same_results",
+    "KafVerif.C17.snapshot_too_large_diverges",
+    "KafVerif.C17.onetxn_delete_fails_over_limit",
+    "KafVerif.C17.onetxn_diverges",
 ]
 BUILDS = {"h": ("root", "./cmd/verif_c17", ["C17"])}
 TECHNIQUE = ("Lean 4 bisimulation proof between the models of InMemoryStore and EtcdStore (every Store operation, induction over "
@@ -22,7 +29,8 @@ TECHNIQUE = ("Lean 4 bisimulation proof between the models of InMemoryStore and 
              "generated histories + direct monitor 'in-memory result = etcd result' on every operation")
 LEVEL_TEXT = ("stores_bisimilar / same_results proved for every history of Store operations whose UpdateOffsets arguments are >= -1; "
               "FetchTopicConfig results are masked (not in the statement's operation list; their defaults differ by code, mirrored "
-              "and compared model-vs-implementation per store)")
+              "and compared model-vs-implementation per store); same_results_limited: the same with etcd's request-size and "
+              "txn-operation limits as parameters, for every history whose snapshot fits one request (no bound on commits per topic)")
 LEVEL_NOTE = ("names are abstract ids (separator-carrying names are C16/C22); etcd unavailability is not driven; metadata strings and "
               "group payloads are ASCII (json.Marshal would replace invalid UTF-8 in commit metadata in the etcd store only)")
 ASSUMPTIONS = [
@@ -30,6 +38,9 @@ ASSUMPTIONS = [
     "key constructors are injective on the generated (legal) names: C22 / C16",
     "UpdateOffsets is called with lastOffset >= -1 (with the C05 monotone fix the stores differ below that: theorem negative_offsets_diverge)",
     "the tree under test carries the C05 monotone-UpdateOffsets, C15 clone, C16 key and C21/C22/C17 fixes (the model mirrors the fixed code)",
+    "the metadata snapshot (every topic with every partition, ~126 bytes per partition) fits one etcd request (1.5 MiB, i.e. < ~12 000 "
+    "partitions in total): beyond that CreateTopic / CreatePartitions succeed in memory and fail on etcd (theorem snapshot_too_large_diverges; "
+    "driven in the `limits` stream, model-vs-implementation only); single values (commit metadata, group payload) likewise < 1.5 MiB",
 ]
 
 TOPICS = [1, 1, 2, 11, 11, 3, 0, 100]   # names t1 / t11: one is a string prefix of the other
@@ -123,6 +134,54 @@ class Gen:
         return ops
 
 
+def layout(n, kind):
+    """n distinct (group, partition) pairs: `wide` = many groups x one partition, `deep` = one group x many
+    partitions, `grid` = groups x 33 partitions (the shape of 4 consumer groups on a 33-partition topic)."""
+    if kind == "wide":
+        return [(1 + i, 0) for i in range(n)]
+    if kind == "deep":
+        return [(1, i) for i in range(n)]
+    return [(1 + i // 33, i % 33) for i in range(n)]
+
+
+def boundary_case(n1, n2, kind1="grid", kind2="grid", regrow=40):
+    """Size boundaries of the etcd store (etcd rejects a transaction with more than 128 operations): topic 1 gets n1
+    committed (group, partition) offsets, topic 2 gets n2, topic 11 one; then DeleteTopic of each with a full
+    read-back of everything in between (listing, EVERY commit key, next offsets, metadata), re-create, read back."""
+    g = Gen(None)
+    ops = ["new 1", "ct 1 40 1", "ct 2 40 1", "ct 11 3 1", "uo 1 0 41", "uo 1 39 6", "uo 2 0 7", "uo 11 0 3", "pg 1 3"]
+    for (grp, p) in layout(n1, kind1):
+        ops.append(g.commit(grp, 1, p, 5 + p, 1))
+    for (grp, p) in layout(n2, kind2):
+        ops.append(g.commit(grp, 2, p, 7 + p, 2))
+    ops.append(g.commit(1, 11, 0, 9, 2))
+    keys = sorted(g.ckeys)
+
+    def readback(topic=None):
+        r = ["md -", "lo", "no 1 0", "no 1 39", "no 2 0", "no 11 0"]
+        # every commit key of the topic just deleted; the first and last key of every topic otherwise
+        for t in (1, 2, 11):
+            ks = [k for k in keys if k[1] == t]
+            r += ["fo %d %d %d" % k for k in (ks if t == topic else ks[:1] + ks[-1:])]
+        return r
+    ops += ["lo", "dt 1"] + readback(1)
+    ops += ["ct 1 %d 1" % regrow] + readback()
+    ops += ["dt 2"] + readback(2)
+    ops += ["dt 11", "ct 2 3 1", "ct 11 3 1"] + readback()
+    return ops
+
+
+def limits_case(small=1000, big=13000, grow=14000):
+    """OUTSIDE the hypotheses of same_results_limited (`FitsFrom`): the snapshot of a topic table with more than ~12 000
+    partitions exceeds etcd's request size, so CreateTopic / CreatePartitions fail on the etcd store only.  Model
+    (stepEL etcdDefaults) vs implementation per store; no store-vs-store monitor.  `cp 9 5` (unknown topic) after every
+    failing operation reloads the snapshot, so that nothing is read from the un-persisted local copy."""
+    return ["new 1", "ct 2 3 1", "ct 1 %d 1" % small, "no 1 %d" % (small - 1), "uo 1 %d 5" % (small - 1), "co 1 1 %d 5 1" % (small - 1),
+            "ct 3 %d 1" % big, "cp 9 5", "md 1,2,3", "no 3 0", "uo 3 0 8", "no 3 0",
+            "cp 1 %d" % grow, "cp 9 5", "md 1,2,3", "no 1 %d" % (small - 1), "no 1 %d" % small,
+            "dt 3", "dt 1", "md -", "fo 1 1 %d" % (small - 1), "lo"]
+
+
 PREAMBLE = ["ct 1 3 1", "ct 11 3 1", "ct 2 2 1", "uo 1 0 41", "uo 11 0 17", "uo 11 1 5", "uo 2 1 8",
             "uo 1 5 41", "uo 2 9 5", "uo 11 -1 7",              # partitions the topic does not have
             "pg 1 3", "pg 2 4"]
@@ -191,15 +250,20 @@ def fails(ck, binary, ops, fp):
     return m is not None and m[1] == fp
 
 
-def shrink(ck, binary, ops, fp, budget=10):
+def shrink(ck, binary, ops, fp, budget=12):
+    """Chunked delta-debugging with a small budget (each probe restarts the harness): drop blocks of half, a quarter, …
+    of the history (never the first op `new` nor the last, failing one) while the same fingerprint is reproduced."""
     cur = list(ops)
-    j = len(cur) - 2
-    while j >= 1 and budget > 0:
-        cand = cur[:j] + cur[j + 1:]
-        budget -= 1
-        if fails(ck, binary, cand, fp):
-            cur = cand
-        j -= 1
+    size = max(1, (len(cur) - 2) // 2)
+    while size >= 1 and budget > 0:
+        j = len(cur) - 1 - size
+        while j >= 1 and budget > 0:
+            cand = cur[:j] + cur[j + size:]
+            budget -= 1
+            if fails(ck, binary, cand, fp):
+                cur = cand
+            j -= size
+        size //= 2
     return cur
 
 
@@ -216,15 +280,28 @@ def run(ck):
                       "an illegal name), 4 group ids, partition indexes in and out of the topic's range for every op that takes one, small "
                       "offset/metadata pools with deliberate re-commits of an earlier key, delete-then-recreate with another partition "
                       "count, followed by a full read-back (every topic x partition -1..9, every touched commit key), a delete/re-create "
-                      "sweep and a second full read-back; non-trivial = the history contains a successful topic "
+                      "sweep and a second full read-back; plus size-boundary histories (129..300 committed (group, partition) offsets on one "
+                      "topic, 127..129 on another, then DeleteTopic + read-back of every key) and, outside the hypotheses, histories whose "
+                      "snapshot exceeds one etcd request (model-vs-implementation only); non-trivial = the history contains a successful topic "
                       "create, a delete or growth, and at least one read that returns stored data; distinct = distinct histories")
     ncases = 24 if ck.quick() else 250
     nops = 55 if ck.quick() else 120
     cases = corpus() + [gen_case(ck.rng.fork(), nops) for _ in range(ncases)]
+    # size boundaries (etcd: at most 128 operations per transaction): one deterministic history in every run (129 commits
+    # on one topic, exactly 128 on another — also in the corpus), one drawn from the seed; more in the thorough tier
+    cases.append(boundary_case(129, 128))
+    r = ck.rng.fork()
+    for _ in range(1 if ck.quick() else 6):
+        cases.append(boundary_case(r.choice([129, 130, 132, 160, 200, 257, 300]), r.choice([1, 127, 128, 129]),
+                                   r.choice(["grid", "wide", "deep"]), r.choice(["grid", "wide", "deep"]), r.choice([40, 41, 64])))
     nadm = len(cases)
     # outside the theorem's hypotheses (empty group ids, illegal topics in commits, offsets < -1): the two stores may
     # legitimately differ there (mirrored in the models), so only model-vs-implementation is compared
     cases += [gen_case(ck.rng.fork(), nops, admissible=False) for _ in range(max(3, ncases // 8))]
+    # outside `FitsFrom`: snapshot larger than one etcd request (sizes far from the 1.5 MiB boundary on either side)
+    cases.append(limits_case())
+    if not ck.quick():
+        cases += [limits_case(r.choice([500, 5000]), r.choice([14000, 20000]), r.choice([15000, 30000])) for _ in range(2)]
     all_ops, bounds = [], []
     for c in cases:
         bounds.append((len(all_ops), len(all_ops) + len(c)))
